@@ -505,6 +505,12 @@ func (n *node) check() error {
 		if e := checkRevisionOrder(n); e != nil {
 			return e
 		}
+	case NodeDeviation:
+		// RFC 6020 7.18.3.1: deviate 1..n.  The kinds of deviate are node
+		// types of their own, so the cardinality table cannot express it.
+		if len(n.ChildrenByType(NodeDeviate)) == 0 {
+			return fmt.Errorf("%s: missing required '%s' statement", ErrCard, NodeDeviate)
+		}
 	}
 
 	e := n.checkArgument()
